@@ -48,6 +48,22 @@ def r1(cx):
         if pat == "CommitEnv::write":
             ap = sites(cx, b, "CommitEnv::apply")
             cx.check(not any(a.bb in r for a in ap), "a batch whose WAL write failed is never applied to the memtable", "apply-after-failed-write", c.where())
+    # rollback must name exactly the stamp publish() wrote: seq_num + count - 1 (highest seq of the batch)
+    pb = cx.f.body("CommitOracle::publish")
+    stamp_ok = False
+    for c in pb.calls_to("std::collections::HashMap::insert"):
+        o = origin_of_operand(pb, c.args[2])
+        names_ = {pb.local_name(l) for l, _ in o.params}
+        stamp_ok = {"seq_num", "count"} <= names_ and any(x.startswith("Add") for x in o.ops) and any(x.startswith("Sub") for x in o.ops)
+    cx.check(stamp_ok, "publish() stamps keys with seq_num + count - 1", "publish-stamp-shape", pb.where())
+    for c in rb:
+        o = origin_of_operand(b, c.args[2])
+        one = [k for k in o.consts if k.get("v") == "1"]
+        good = o.from_call("std::sync::atomic::Atomic::fetch_add") and o.from_call("Batch::count") and one and \
+            any(x.startswith("Add") for x in o.ops) and any(x.startswith("Sub") for x in o.ops)
+        cx.check(bool(good), "rollback() is given the stamp publish() wrote (seq_num + count - 1)", "rollback-stamp", c.where(),
+                 "the oracle rollback is called with a value that is not `allocated seq + count - 1`: publish() stamped the keys with the highest sequence number of the "
+                 "batch, so the rollback of a multi-entry batch matches nothing and the failed commit keeps aborting other transactions")
     # the write-mutex is released before draining on the failure arm (publish never under write_mutex)
     g = write_mutex_guard(cx, b)
     for p in pu:
